@@ -252,3 +252,7 @@ impl ValueToFrameWriter<VarInt> for MaxStreamsToFrameWriter {
         })
     }
 }
+
+#[cfg(all(aws_s2n_quic_verif, any(test, all(kani, feature = "testing"))))]
+#[path = "/verif/harness/transport/remote_initiated.rs"]
+mod verif;
